@@ -8,6 +8,10 @@ mode=seq (one GenericCache, calls in order; three lines per call):
 mode=sched (scripted overlap on one GenericCache, real-time order):
   setdone <k> v<id>.<len> | seterr <k> | got <k> <desc> <tag>       desc = v<id>.<len> | mixed:… | miss | err
 mode=part (scripted overlap on the cache part store): pput <id> v<id>.<n> | pdel <id> | pget <id> <desc|notfound|err> <tag>
+mode=partfault (sequential history on the cache part store over a faulty inner store; three lines per call):
+  pput <i> <vid> <n> | pputfail <i> <vid> <n> <at> | pget <i> <k|-> <sep|tog> | pgethalf <i> | pdel <i> | pevict <i>
+  res ok | res err [<bytes before the error>] | res bytes <desc> | res notfound | res half <desc> | res halfeof <desc>
+  inner <number of inner GetPart streams the call opened>
 mode=child: child exit=<n> fatal=<none|concurrent-map-access|panic|other>
 mode=soak: sv <k> v<id>.<n> (a Set that was started) | got <k> <desc> | panic <hex> | deadlock | count …
 
@@ -79,7 +83,7 @@ def parseSeqOp (t : List String) : Option Seq.Op :=
   | ["set", k, id, sz, m] =>
     let n := sz.toNat!
     some (.set (keyNum k) (if n == 0 then 0 else id.toNat! * 1000 + n) n (m == "known"))
-  | ["setfail", k, sz, m] => some (.setFail (keyNum k) sz.toNat! (m == "known"))
+  | "setfail" :: k :: sz :: m :: _ => some (.setFail (keyNum k) sz.toNat! (m == "known"))
   | ["get", k] => some (.get (keyNum k))
   | ["rm", k] => some (.remove (keyNum k))
   | _ => none
@@ -174,12 +178,16 @@ def judgeSched (cfg : List String) (lines : List String) : Verdict := Id.run do
   let sched := kvOf cfg "sched"
   let mut vio : List (String × String) := []
   let mut div : List String := []
-  -- every value a Set tried to store (in these scripts: v1.40, v2.60)
-  let attempted : List (Nat × Nat) := [(0, 1040), (0, 2060)]
+  -- every value a Set tried to store (schedules 0/1: v1.40, v2.60; 2/3: announced by `setstart`)
+  let attempted : List (Nat × Nat) := [(0, 1040), (0, 2060)] ++ lines.filterMap fun l =>
+    match tokens l with
+    | ["setstart", k, v] => (valNum v).map (fun n => (keyNum k, n))
+    | _ => none
   let mut obs : List (Option Conc.Val) := []
   for l in lines do
     match tokens l with
     | ["setdone", _, _] => pure ()
+    | ["setstart", _, _] => pure ()
     | ["seterr", _] => div := div ++ ["a-set-failed"]
     | ["got", k, desc, tag] =>
       let v := valOfDesc attempted (keyNum k) desc
@@ -198,11 +206,19 @@ def judgeSched (cfg : List String) (lines : List String) : Verdict := Id.run do
       some (if atomic then [0, 0, 0, 0, 1, 1, 2, 3, 3, 2, 2, 2, 4, 4] else [0, 0, 0, 0, 1, 1, 2, 2, 3, 3, 2, 2, 4, 4])
     else if sched == "1" then
       some [0, 0, 0, 0, 1, 2, 2, 2, 2, 1, 3, 3]
+    else if sched == "2" then
+      -- A up to (not including) its store; B completely; get; A's store; get   (atomic persistors only)
+      if atomic then some [0, 1, 1, 1, 2, 2, 0, 0, 3, 3] else none
+    else if sched == "3" then
+      if atomic then some [0, 1, 0, 0, 2, 2, 1, 1, 3, 3] else none
     else none
   match model with
-  | none => div := div ++ ["unknown-schedule"]
+  | none => if sched == "2" || sched == "3" then pure () else div := div ++ ["unknown-schedule"]
   | some sch =>
-    let ts := if sched == "0" then [t0, g, t2, g, g] else [t0, g, t2, g]
+    let ts := if sched == "0" then [t0, g, t2, g, g]
+      else if sched == "2" then [.set 0 1016 false false [] .evict, .set 0 2004 false false [] .evict, g, g]
+      else if sched == "3" then [.set 0 1064 false false [] .evict, .set 0 1064 false false [] .evict, g, g]
+      else [t0, g, t2, g]
     let ret := (Conc.run atomic (Conc.init ts) sch).returned.reverse.map (fun p => some p.2)
     if ret != obs then
       div := div ++ [s!"sched{sched}:model={repr ret}:impl={repr obs}".replace " " ""]
@@ -233,14 +249,14 @@ def judgePart (cfg : List String) (lines : List String) : Verdict := Id.run do
   let pre : Part.St := { Part.init [] with inner := [(0, 1050)], puts := [(0, 1050)] }
   let model : Option (List (Option Nat)) :=
     if sched == "0" then
-      some ((Part.run { pre with threads := [.get 0 .lookup none, .delete 0 0, .get 0 .lookup none, .get 0 .lookup none] }
+      some ((Part.run { pre with threads := [.get 0 false .lookup none, .delete 0 0, .get 0 false .lookup none, .get 0 false .lookup none] }
         [0, 0, 1, 1, 0, 2, 3]).returned.reverse.map (·.2))
     else if sched == "1" then
-      some ((Part.run { pre with threads := [.get 0 .lookup none, .put 0 2030 0, .get 0 .lookup none, .get 0 .lookup none] }
+      some ((Part.run { pre with threads := [.get 0 false .lookup none, .put 0 2030 0, .get 0 false .lookup none, .get 0 false .lookup none] }
         [0, 0, 1, 1, 0, 2, 3]).returned.reverse.map (·.2))
     else if sched == "2" then
-      some ((Part.serial (Part.init []) [.put 0 1050 0, .get 0 .lookup none, .get 0 .lookup none, .delete 0 0,
-        .get 0 .lookup none, .put 0 2020 0, .get 0 .lookup none]).returned.reverse.map (·.2))
+      some ((Part.serial (Part.init []) [.put 0 1050 0, .get 0 false .lookup none, .get 0 false .lookup none, .delete 0 0,
+        .get 0 false .lookup none, .put 0 2020 0, .get 0 false .lookup none]).returned.reverse.map (·.2))
     else none
   match model with
   | none => div := div ++ ["unknown-schedule"]
@@ -250,6 +266,98 @@ def judgePart (cfg : List String) (lines : List String) : Verdict := Id.run do
     if !(uniq.any (·.1 == x.1)) then uniq := uniq ++ [x]
   return { diverge := div, violations := uniq, nontrivial := obs.length ≥ 3, fingerprint := fpLines (cfg ++ lines),
            stats := [("part_cases", 1)], samples := [String.intercalate ";" lines] }
+
+/-! ### cache part store with a faulty source (sequential) -/
+
+def partRes (s s' : Part.St) : String :=
+  if s'.returned.length == s.returned.length then "err"
+  else match s'.returned.head? with
+    | some (_, some v) => s!"bytes {v}"
+    | some (_, none) => "notfound"
+    | none => "?"
+
+def judgePartFault (cfg : List String) (lines : List String) : Verdict := Id.run do
+  let exact := kvOf cfg "policy" == "none"
+  let tie := (kvOf cfg "maxpart").toNat! == 0     -- MaxPartSizeBytes is not modelled: judge only
+  let mut s : Part.St := Part.init []
+  let mut cur : List (Nat × Nat) := []            -- the judge's own bookkeeping: id ↦ bytes stored now
+  let mut vio : List (String × String) := []
+  let mut div : List String := []
+  let mut stats : List (String × Nat) := [("partfault_cases", 1)]
+  let mut idx := 0
+  let mut faultyMiss := 0
+  let mut rest := lines
+  while !rest.isEmpty do
+    match rest with
+    | opl :: resl :: innerl :: tl =>
+      rest := tl
+      idx := idx + 1
+      let op := tokens opl
+      let res := (tokens resl).drop 1
+      let reads := ((tokens innerl).getD 1 "0").toNat!
+      let i := (op.getD 1 "0").toNat!
+      stats := addStats stats [("part_" ++ op.getD 0 "?", 1)]
+      match op.getD 0 "" with
+      | "pput" =>
+        let v := valNum s!"v{op.getD 2 "0"}.{op.getD 3 "0"}" |>.getD 0
+        if res == ["ok"] then
+          cur := (i, v) :: cur.filter (·.1 != i)
+          s := Part.runToEnd s (.put i v 0)
+        else div := div ++ [s!"op{idx}:PutPart-failed"]
+      | "pputfail" =>
+        -- the inner double reads the body before storing: a failing body stores nothing anywhere
+        if res != ["err"] then div := div ++ [s!"op{idx}:PutPart-with-a-failing-body-answered-{res}"]
+      | "pdel" =>
+        cur := cur.filter (·.1 != i)
+        s := Part.runToEnd s (.delete i 0)
+      | "pevict" => s := { s with cache := Part.erase s.cache i }
+      | "pgethalf" =>
+        -- the caller closes early: as far as the cache is concerned, a fill that fails
+        if tie then
+          if !exact && reads == 1 && (Part.lookup s.cache i).isSome then s := { s with cache := Part.erase s.cache i }
+          s := Part.runToEnd s (.get i (res.head? != some "halfeof") .lookup none)
+      | "pget" =>
+        let fl := op.getD 2 "-" != "-"
+        -- judge: bytes handed out without an error must be the bytes stored under the id now
+        match res with
+        | ["bytes", d] =>
+          let stored := (cur.find? (·.1 == i)).map (·.2)
+          if valNum d != stored || stored.isNone then
+            let pre := match valNum d, stored with
+              | some a, some b => a / 1000 == b / 1000 && a % 1000 < b % 1000
+              | _, _ => false
+            vio := vio ++ [(if pre then "C19.partstore-served-partial-bytes" else "C19.partstore-served-wrong-bytes",
+              s!"op{idx}:{opl.replace " " "_"}:GetPart-returned-{d}-without-error:stored={match stored with | some b => toString b | none => "nothing"}")]
+        | "panic" :: _ => vio := vio ++ [("C19.panic", s!"op{idx}:{opl.replace " " "_"}")]
+        | _ => pure ()
+        -- tie
+        if tie then
+          if !exact && reads == 1 && (Part.lookup s.cache i).isSome then
+            s := { s with cache := Part.erase s.cache i }     -- the eviction policy dropped the entry
+            stats := addStats stats [("part_evictions_inferred", 1)]
+          let miss := (Part.lookup s.cache i).isNone
+          let predReads := if miss && (Part.lookup s.inner i).isSome then 1 else 0
+          if fl && predReads == 1 then faultyMiss := faultyMiss + 1
+          let s' := Part.runToEnd s (.get i fl .lookup none)
+          let pred := partRes s s'
+          let obs := match res with
+            | ["bytes", d] => s!"bytes {(valNum d).getD 0}"
+            | "err" :: _ => "err"
+            | [x] => x
+            | _ => "?"
+          if pred != obs || predReads != reads then
+            div := div ++ [s!"op{idx}:{opl.replace " " "_"}:model={pred.replace " " "_"}/inner-reads={predReads}:impl={obs.replace " " "_"}/inner-reads={reads}"]
+          s := s'
+      | o => div := div ++ [s!"unknown-op-{o}"]
+    | _ =>
+      div := div ++ ["incomplete-triple"]
+      rest := []
+  let mut uniq : List (String × String) := []
+  for x in vio do
+    if !(uniq.any (·.1 == x.1)) then uniq := uniq ++ [x]
+  return { diverge := div, violations := uniq, nontrivial := idx ≥ 5 && (faultyMiss ≥ 1 || !tie),
+           fingerprint := fpLines (cfg ++ lines), stats := stats ++ [("part_fills_that_failed", faultyMiss)],
+           samples := [String.intercalate ";" (lines.take 12)] }
 
 def judgeChild (cfg : List String) (lines : List String) : Verdict :=
   match lines.map tokens with
@@ -302,6 +410,7 @@ def judgeCase (_k : Nat) (lines : List String) : Verdict :=
       | "seq" => judgeSeq cfg rest
       | "sched" => judgeSched cfg rest
       | "part" => judgePart cfg rest
+      | "partfault" => judgePartFault cfg rest
       | "child" => judgeChild cfg rest
       | "soak" => judgeSoak cfg rest
       | m => { diverge := ["unknown-mode-" ++ m] }
